@@ -9,14 +9,13 @@ package checks
 // depth-first (iterative bounding 0,1,2); every complete execution is checked at quiescence.
 
 import (
-	"os"
 	"encoding/json"
 	"fmt"
+	"os"
 	"sort"
 	"strings"
 	"time"
 
-	"github.com/janelia-flyem/dvid/datastore"
 
 	"verif/vlib"
 	"verif/vsrv"
@@ -26,573 +25,6 @@ import (
 func init() {
 	vlib.Register("C11", "model_checking", runC11)
 	vlib.Workers["c11"] = c11Worker
-}
-
-// c11Scenario: setup builds a fresh world (uncontrolled); bodies are the concurrent requests; verdict inspects the result.
-type c11World struct {
-	root  string
-	nodes map[string]string
-	resp  []vsrv.Resp
-	extra map[string]interface{}
-}
-
-type c11Scenario struct {
-	name    string
-	setup   func() (*c11World, error)
-	bodies  func(w *c11World) []func()
-	verdict func(w *c11World) []string // violation classes with text: "class\ttext"
-	// observe, if set, renders the quiescent outcome (response codes + final state); the explored outcome must be one
-	// that some sequential order of the same requests produces on the same code
-	observe func(w *c11World) string
-}
-
-func c11KVWorld() (*c11World, error) {
-	root, err := vsrv.NewRepo()
-	if err != nil {
-		return nil, err
-	}
-	if err := vsrv.NewInstance(root, "keyvalue", "kv", nil); err != nil {
-		return nil, err
-	}
-	return &c11World{root: root, nodes: map[string]string{}, resp: make([]vsrv.Resp, 4)}, nil
-}
-
-func acked(r vsrv.Resp) bool { return r.OK() }
-
-func c11Scenarios() []c11Scenario {
-	var sc []c11Scenario
-	// ---- S1 key-value ----
-	sc = append(sc, c11Scenario{name: "S1a:kv:post||post||get", setup: c11KVWorld,
-		bodies: func(w *c11World) []func() {
-			u := "node/" + w.root + "/kv/key/k"
-			return []func(){func() { w.resp[0] = vsrv.PostS(u, "v1") }, func() { w.resp[1] = vsrv.PostS(u, "v2") }, func() { w.resp[2] = vsrv.Get(u) }}
-		},
-		verdict: func(w *c11World) (bad []string) {
-			final := vsrv.Get("node/" + w.root + "/kv/key/k")
-			if !acked(w.resp[0]) || !acked(w.resp[1]) {
-				bad = append(bad, fmt.Sprintf("post-refused\tconcurrent POSTs answered %s / %s", w.resp[0], w.resp[1]))
-			}
-			if final.Code != 200 || (string(final.Body) != "v1" && string(final.Body) != "v2") {
-				bad = append(bad, fmt.Sprintf("final-value\tafter two acknowledged POSTs the key reads %s", final))
-			}
-			if g := w.resp[2]; !(g.Code == 404 || g.Code == 200 && (string(g.Body) == "v1" || string(g.Body) == "v2")) {
-				bad = append(bad, fmt.Sprintf("concurrent-read\tconcurrent GET answered %s", g))
-			}
-			return
-		}})
-	sc = append(sc, c11Scenario{name: "S1b:kv:post||delete", setup: func() (*c11World, error) {
-		w, err := c11KVWorld()
-		if err == nil {
-			vsrv.PostS("node/"+w.root+"/kv/key/k", "old")
-		}
-		return w, err
-	},
-		bodies: func(w *c11World) []func() {
-			u := "node/" + w.root + "/kv/key/k"
-			return []func(){func() { w.resp[0] = vsrv.PostS(u, "new") }, func() { w.resp[1] = vsrv.Delete(u) }}
-		},
-		verdict: func(w *c11World) (bad []string) {
-			final := vsrv.Get("node/" + w.root + "/kv/key/k")
-			keys := vsrv.Get("node/" + w.root + "/kv/keys")
-			okFinal := final.Code == 404 && strings.TrimSpace(string(keys.Body)) == "[]" || final.Code == 200 && string(final.Body) == "new" && strings.Contains(string(keys.Body), `"k"`)
-			if !okFinal {
-				bad = append(bad, fmt.Sprintf("final-state\tafter POST || DELETE the key reads %s and the listing is %s", final, keys))
-			}
-			return
-		}})
-	// ---- S2 repo ----
-	repoWorld := func() (*c11World, error) {
-		root, err := vsrv.NewRepo()
-		if err != nil {
-			return nil, err
-		}
-		vsrv.NewInstance(root, "keyvalue", "kv", nil)
-		vsrv.Commit(root)
-		return &c11World{root: root, nodes: map[string]string{}, resp: make([]vsrv.Resp, 4)}, nil
-	}
-	children := func(w *c11World) (all []datastore.VerifNode, dump datastore.VerifState) {
-		dump = datastore.VerifDump(w.root)
-		for _, r := range dump.Repos {
-			if r.Root == w.root {
-				all = r.Nodes
-			}
-		}
-		return
-	}
-	invariants := func(w *c11World) (bad []string) {
-		world := &c07World{roots: []string{w.root}}
-		for _, iv := range c07Invariants(world.snapshot(), world) {
-			bad = append(bad, "dag-"+iv[0]+"\t"+iv[1])
-		}
-		return
-	}
-	sc = append(sc, c11Scenario{name: "S2a:repo:newversion||newversion", setup: repoWorld,
-		bodies: func(w *c11World) []func() {
-			return []func(){func() { w.resp[0] = vsrv.PostS("node/"+w.root+"/newversion", `{"note":"a"}`) }, func() { w.resp[1] = vsrv.PostS("node/"+w.root+"/newversion", `{"note":"b"}`) }}
-		},
-		verdict: func(w *c11World) (bad []string) {
-			nodes, _ := children(w)
-			n := 0
-			for _, nd := range nodes {
-				if len(nd.Parents) == 1 && nd.Branch == "" {
-					n++
-				}
-			}
-			ack := 0
-			for _, r := range w.resp[:2] {
-				if acked(r) {
-					ack++
-				}
-			}
-			if n > 1 {
-				bad = append(bad, fmt.Sprintf("two-children-same-branch\ttwo concurrent newversion requests on one committed parent were answered %d / %d and left %d children on the parent's branch", w.resp[0].Code, w.resp[1].Code, n))
-			}
-			if ack != n {
-				bad = append(bad, fmt.Sprintf("ack-mismatch\t%d newversion requests acknowledged but %d children exist", ack, n))
-			}
-			return append(bad, invariants(w)...)
-		}})
-	sc = append(sc, c11Scenario{name: "S2b:repo:branch||branch", setup: repoWorld,
-		bodies: func(w *c11World) []func() {
-			return []func(){func() { w.resp[0] = vsrv.PostS("node/"+w.root+"/branch", `{"branch":"b","note":"a"}`) }, func() { w.resp[1] = vsrv.PostS("node/"+w.root+"/branch", `{"branch":"b","note":"b"}`) }}
-		},
-		verdict: func(w *c11World) (bad []string) {
-			nodes, _ := children(w)
-			n := 0
-			for _, nd := range nodes {
-				if nd.Branch == "b" {
-					n++
-				}
-			}
-			if n > 1 {
-				bad = append(bad, fmt.Sprintf("two-heads-one-branch\ttwo concurrent branch requests with one name (answered %d / %d) created %d nodes on branch b", w.resp[0].Code, w.resp[1].Code, n))
-			}
-			return append(bad, invariants(w)...)
-		}})
-	sc = append(sc, c11Scenario{name: "S2c:repo:commit||note", setup: func() (*c11World, error) {
-		w, err := repoWorld()
-		if err == nil {
-			w.nodes["c"], err = vsrv.NewVersion(w.root)
-		}
-		return w, err
-	},
-		bodies: func(w *c11World) []func() {
-			c := w.nodes["c"]
-			return []func(){func() { w.resp[0] = vsrv.PostS("node/"+c+"/commit", `{"note":"committed"}`) }, func() { w.resp[1] = vsrv.PostS("node/"+c+"/note", `{"note":"annotated"}`) }}
-		},
-		verdict: func(w *c11World) (bad []string) { return invariants(w) },
-		observe: func(w *c11World) string {
-			c := w.nodes["c"]
-			return fmt.Sprintf("commit=%d note=%d locked=%s note=%s", w.resp[0].Code, w.resp[1].Code, strings.TrimSpace(string(vsrv.Get("node/"+c+"/commit").Body)), strings.TrimSpace(string(vsrv.Get("node/"+c+"/note").Body)))
-		}})
-	sc = append(sc, c11Scenario{name: "S2d:repo:newversion||newinstance||commit-other", setup: func() (*c11World, error) {
-		w, err := repoWorld()
-		if err == nil {
-			w.nodes["o"], err = vsrv.Branch(w.root, "open")
-		}
-		return w, err
-	},
-		bodies: func(w *c11World) []func() {
-			return []func(){func() { w.resp[0] = vsrv.PostS("node/"+w.root+"/newversion", `{"note":"a"}`) },
-				func() { w.resp[1] = vsrv.PostS("repo/"+w.nodes["o"]+"/instance", `{"typename":"keyvalue","dataname":"late"}`) },
-				func() { w.resp[2] = vsrv.PostS("node/"+w.nodes["o"]+"/commit", `{"note":"c"}`) }}
-		},
-		verdict: func(w *c11World) (bad []string) {
-			_, dump := children(w)
-			if acked(w.resp[1]) {
-				found := false
-				for _, r := range dump.Repos {
-					for _, in := range r.Instances {
-						if strings.HasPrefix(in, "late:") {
-							found = true
-						}
-					}
-				}
-				if !found {
-					bad = append(bad, "instance-lost\tinstance creation acknowledged but the instance is missing from the repo")
-				}
-			}
-			nodes, _ := children(w)
-			if acked(w.resp[0]) && len(nodes) != 3 {
-				bad = append(bad, fmt.Sprintf("child-lost\tnewversion acknowledged but the repo has %d nodes", len(nodes)))
-			}
-			return append(bad, invariants(w)...)
-		}})
-	// ---- S3 annotation ----
-	annWorld := func() (*c11World, error) {
-		root, err := vsrv.NewRepo()
-		if err != nil {
-			return nil, err
-		}
-		if err := vsrv.NewInstance(root, "annotation", "ann", nil); err != nil {
-			return nil, err
-		}
-		vsrv.PostS("node/"+root+"/ann/elements", `[{"Pos":[5,5,5],"Kind":"Note","Tags":["t0"],"Prop":{},"Rels":[]}]`)
-		return &c11World{root: root, nodes: map[string]string{}, resp: make([]vsrv.Resp, 4)}, nil
-	}
-	elems := func(w *c11World, path string) map[string]bool {
-		x := vsrv.Get("node/" + w.root + "/ann/" + path)
-		out := map[string]bool{}
-		var list []annElem
-		if json.Unmarshal(x.Body, &list) == nil {
-			for _, e := range list {
-				out[fmt.Sprint(e.Pos)] = true
-			}
-			return out
-		}
-		var blocks map[string][]annElem
-		if json.Unmarshal(x.Body, &blocks) == nil {
-			for _, l := range blocks {
-				for _, e := range l {
-					out[fmt.Sprint(e.Pos)] = true
-				}
-			}
-		}
-		return out
-	}
-	sc = append(sc, c11Scenario{name: "S3a:annotation:post||post:same-block", setup: annWorld,
-		bodies: func(w *c11World) []func() {
-			u := "node/" + w.root + "/ann/elements"
-			return []func(){func() { w.resp[0] = vsrv.PostS(u, `[{"Pos":[10,10,10],"Kind":"Note","Tags":["t1"],"Prop":{},"Rels":[]}]`) },
-				func() { w.resp[1] = vsrv.PostS(u, `[{"Pos":[20,20,20],"Kind":"Note","Tags":["t1"],"Prop":{},"Rels":[]}]`) }}
-		},
-		verdict: func(w *c11World) (bad []string) {
-			all := elems(w, "all-elements")
-			tag := elems(w, "tag/t1")
-			for i, p := range []string{"[10 10 10]", "[20 20 20]"} {
-				if acked(w.resp[i]) && !all[p] {
-					bad = append(bad, fmt.Sprintf("element-lost:block\tPOST of element %s was acknowledged but it is missing from the block store (all-elements has %v)", p, keysS(all)))
-				}
-				if acked(w.resp[i]) && !tag[p] {
-					bad = append(bad, fmt.Sprintf("element-lost:tag\tPOST of element %s was acknowledged but it is missing from tag t1 (tag has %v)", p, keysS(tag)))
-				}
-			}
-			if !all["[5 5 5]"] {
-				bad = append(bad, "element-lost:preexisting\tthe pre-existing element of the block disappeared")
-			}
-			return
-		}})
-	sc = append(sc, c11Scenario{name: "S3b:annotation:post||delete:same-block", setup: annWorld,
-		bodies: func(w *c11World) []func() {
-			return []func(){func() {
-				w.resp[0] = vsrv.PostS("node/"+w.root+"/ann/elements", `[{"Pos":[10,10,10],"Kind":"Note","Tags":["t0"],"Prop":{},"Rels":[]}]`)
-			},
-				func() { w.resp[1] = vsrv.Delete("node/" + w.root + "/ann/element/5_5_5") }}
-		},
-		verdict: func(w *c11World) (bad []string) {
-			all := elems(w, "all-elements")
-			tag := elems(w, "tag/t0")
-			if acked(w.resp[0]) && (!all["[10 10 10]"] || !tag["[10 10 10]"]) {
-				bad = append(bad, fmt.Sprintf("element-lost\tacknowledged POST missing after a concurrent DELETE in the same block: block %v tag %v", keysS(all), keysS(tag)))
-			}
-			if acked(w.resp[1]) && (all["[5 5 5]"] || tag["[5 5 5]"]) {
-				bad = append(bad, fmt.Sprintf("delete-lost\tacknowledged DELETE undone by a concurrent POST in the same block: block %v tag %v", keysS(all), keysS(tag)))
-			}
-			return
-		}})
-	// ---- S5 neuronjson ----
-	njWorld := func() (*c11World, error) {
-		root, err := vsrv.NewRepo()
-		if err != nil {
-			return nil, err
-		}
-		if err := vsrv.NewInstance(root, "neuronjson", "nj", nil); err != nil {
-			return nil, err
-		}
-		vsrv.PostS("node/"+root+"/nj/key/1?u=t", `{"bodyid":1,"z":"0"}`)
-		return &c11World{root: root, nodes: map[string]string{}, resp: make([]vsrv.Resp, 4)}, nil
-	}
-	sc = append(sc, c11Scenario{name: "S5a:neuronjson:post||post:same-key", setup: njWorld,
-		bodies: func(w *c11World) []func() {
-			u := "node/" + w.root + "/nj/key/1?u=t"
-			return []func(){func() { w.resp[0] = vsrv.PostS(u, `{"bodyid":1,"a":"x"}`) }, func() { w.resp[1] = vsrv.PostS(u, `{"bodyid":1,"b":"y"}`) }}
-		},
-		verdict: func(w *c11World) (bad []string) {
-			// partial updates merge fields: either order leaves a, b and z
-			for _, path := range []string{"node/" + w.root + "/nj/key/1"} {
-				x := vsrv.Get(path)
-				var m map[string]interface{}
-				json.Unmarshal(x.Body, &m)
-				for i, f := range []string{"a", "b"} {
-					if acked(w.resp[i]) && m[f] == nil {
-						bad = append(bad, fmt.Sprintf("field-lost\ttwo acknowledged partial updates of one key raced; field %q is missing afterwards: %s", f, x))
-					}
-				}
-				if m["z"] == nil {
-					bad = append(bad, "field-lost:preexisting\tthe pre-existing field disappeared: "+x.String())
-				}
-			}
-			// memory vs store: commit and read the committed version through the store path
-			vsrv.Commit(w.root)
-			child, _ := vsrv.NewVersion(w.root)
-			a, b := vsrv.Get("node/"+w.root+"/nj/key/1"), vsrv.Get("node/"+child+"/nj/key/1")
-			if njNormalize(a.Code, a.Body) != njNormalize(b.Code, b.Body) {
-				bad = append(bad, fmt.Sprintf("memory-store-disagree\tafter the race the store path answers %s and the in-memory path %s", a, b))
-			}
-			return
-		}})
-	// ---- S4 labelmap ----
-	lmWorld := func() (*c11World, error) {
-		root, err := vsrv.NewRepo()
-		if err != nil {
-			return nil, err
-		}
-		if err := vsrv.NewInstance(root, "labelmap", "lm", map[string]string{"BlockSize": "16,16,16"}); err != nil {
-			return nil, err
-		}
-		v := newLMVol([3]int{0, 0, 0}, [3]int{c08NX, c08NY, c08NZ})
-		copy(v.v, c08InitialVolume(false))
-		if r := lmPostRaw(root, "lm", v, false); !r.OK() {
-			return nil, fmt.Errorf("ingest: %s", r)
-		}
-		vsrv.Quiesce()
-		return &c11World{root: root, nodes: map[string]string{}, resp: make([]vsrv.Resp, 4)}, nil
-	}
-	lmVerdict := func(expect func(w *c11World, M map[uint64]uint64) []string) func(w *c11World) []string {
-		return func(w *c11World) (bad []string) {
-			vsrv.Quiesce()
-			mp, _ := lmMapping(w.root, "lm", []uint64{1, 2, 3, 4, 5})
-			M := map[uint64]uint64{}
-			for i, s := range []uint64{1, 2, 3, 4, 5} {
-				if i < len(mp) {
-					M[s] = mp[i]
-				}
-			}
-			bad = append(bad, expect(w, M)...)
-			// index / voxel consistency through the C08 scan oracle, with the model taken from the server's own mapping
-			cw := &c08World{m: &c08Model{vers: []*c08Version{{sv: c08InitialVolume(false), mapping: map[uint64]uint64{}, parent: -1}}}, uuids: []string{w.root}}
-			for s, b := range M {
-				if b != s && b != 0 {
-					cw.m.vers[0].mapping[s] = b
-				}
-			}
-			cw.remember()
-			if vs := cw.check(); len(vs) > 0 {
-				// one lost index update shows up in many read endpoints: one class per scenario
-				var eps, msgs []string
-				for i, v := range vs {
-					eps = append(eps, strings.TrimPrefix(v.Key, "scan:"))
-					if i < 3 {
-						msgs = append(msgs, v.What)
-					}
-				}
-				bad = append(bad, fmt.Sprintf("index-inconsistent\tafter both requests were acknowledged the label index of the shared body disagrees with the stored voxels + mapping in %v: %s", eps, strings.Join(msgs, " ; ")))
-			}
-			return
-		}
-	}
-	sc = append(sc, c11Scenario{name: "S4a:labelmap:merge||merge:same-target", setup: lmWorld,
-		bodies: func(w *c11World) []func() {
-			return []func(){func() { w.resp[0] = lmMerge(w.root, "lm", 1, 2) }, func() { w.resp[1] = lmMerge(w.root, "lm", 1, 3) }}
-		},
-		verdict: lmVerdict(func(w *c11World, M map[uint64]uint64) (bad []string) {
-			for i, s := range []uint64{2, 3} {
-				if acked(w.resp[i]) && M[s] != 1 {
-					bad = append(bad, fmt.Sprintf("merge-lost\tmerge of body %d into 1 acknowledged but supervoxel %d maps to %d", s, s, M[s]))
-				}
-			}
-			return
-		})})
-	sc = append(sc, c11Scenario{name: "S4b:labelmap:merge||cleave:same-body", setup: func() (*c11World, error) {
-		w, err := lmWorld()
-		if err == nil {
-			lmMerge(w.root, "lm", 1, 4)
-			vsrv.Quiesce()
-		}
-		return w, err
-	},
-		bodies: func(w *c11World) []func() {
-			return []func(){func() { w.resp[0] = lmMerge(w.root, "lm", 1, 2) }, func() {
-				var l uint64
-				l, w.resp[1] = lmCleave(w.root, "lm", 1, 4)
-				w.extra = map[string]interface{}{"cleaved": l}
-			}}
-		},
-		verdict: lmVerdict(func(w *c11World, M map[uint64]uint64) (bad []string) {
-			if acked(w.resp[0]) && M[2] != 1 {
-				bad = append(bad, fmt.Sprintf("merge-lost\tmerge 1<-2 acknowledged but supervoxel 2 maps to %d", M[2]))
-			}
-			if acked(w.resp[1]) {
-				if l, _ := w.extra["cleaved"].(uint64); M[4] != l {
-					bad = append(bad, fmt.Sprintf("cleave-lost\tcleave of supervoxel 4 acknowledged (new body %d) but it maps to %d", l, M[4]))
-				}
-			}
-			return
-		})})
-	// ---- S6 identifiers (C12 under concurrency) ----
-	sc = append(sc, c11Scenario{name: "S6a:ids:nextlabel||nextlabel", setup: lmWorld,
-		bodies: func(w *c11World) []func() {
-			return []func(){func() { w.resp[0] = vsrv.Post("node/"+w.root+"/lm/nextlabel/2", nil) }, func() { w.resp[1] = vsrv.Post("node/"+w.root+"/lm/nextlabel/3", nil) }}
-		},
-		verdict: func(w *c11World) (bad []string) {
-			type rng struct{ Start, End uint64 }
-			var r [2]rng
-			for i := 0; i < 2; i++ {
-				if !acked(w.resp[i]) {
-					return
-				}
-				json.Unmarshal(w.resp[i].Body, &r[i])
-			}
-			if r[0].Start <= r[1].End && r[1].Start <= r[0].End {
-				bad = append(bad, fmt.Sprintf("label-ranges-overlap\ttwo concurrent nextlabel requests were given overlapping label ranges %v and %v", r[0], r[1]))
-			}
-			for i, want := range []uint64{2, 3} {
-				if r[i].End-r[i].Start+1 != want || r[i].Start <= 5 {
-					bad = append(bad, fmt.Sprintf("label-range-wrong\tnextlabel/%d answered %s (existing labels are 1..5)", want, w.resp[i]))
-				}
-			}
-			var ml struct{ MaxLabel uint64 }
-			x := vsrv.Get("node/" + w.root + "/lm/maxlabel")
-			json.Unmarshal(x.Body, &ml)
-			if hi := r[0].End; ml.MaxLabel < hi || ml.MaxLabel < r[1].End {
-				bad = append(bad, fmt.Sprintf("maxlabel-behind\tafter nextlabel ranges %v and %v were handed out, maxlabel reports %d", r[0], r[1], ml.MaxLabel))
-			}
-			nx := vsrv.Post("node/"+w.root+"/lm/nextlabel/1", nil)
-			var r3 rng
-			json.Unmarshal(nx.Body, &r3)
-			if nx.OK() && (r3.Start <= r[0].End || r3.Start <= r[1].End) {
-				bad = append(bad, fmt.Sprintf("label-reissued\ta later nextlabel returned %v, not above the ranges %v and %v handed out concurrently before", r3, r[0], r[1]))
-			}
-			return
-		}})
-	sc = append(sc, c11Scenario{name: "S6b:ids:newinstance||newinstance", setup: func() (*c11World, error) {
-		root, err := vsrv.NewRepo()
-		return &c11World{root: root, nodes: map[string]string{}, resp: make([]vsrv.Resp, 4)}, err
-	},
-		bodies: func(w *c11World) []func() {
-			mk := func(i int, name string) func() {
-				return func() {
-					w.resp[i] = vsrv.PostS("repo/"+w.root+"/instance", fmt.Sprintf(`{"typename":"keyvalue","dataname":%q}`, name))
-				}
-			}
-			return []func(){mk(0, "a"), mk(1, "b")}
-		},
-		verdict: func(w *c11World) (bad []string) {
-			x := vsrv.Get("repo/" + w.root + "/info")
-			var info struct {
-				DataInstances map[string]struct {
-					Base struct {
-						ID       uint32
-						DataUUID string
-					}
-				}
-			}
-			json.Unmarshal(x.Body, &info)
-			for i, name := range []string{"a", "b"} {
-				if _, ok := info.DataInstances[name]; acked(w.resp[i]) && !ok {
-					bad = append(bad, fmt.Sprintf("instance-lost\tPOST instance %q was acknowledged (%s) but the repo does not list it", name, w.resp[i]))
-				}
-			}
-			a, okA := info.DataInstances["a"]
-			b, okB := info.DataInstances["b"]
-			if okA && okB {
-				ids := map[string]string{}
-				for _, r := range datastore.VerifDump(w.root).Repos {
-					for _, in := range r.Instances { // "name:type:instanceID"
-						p := strings.Split(in, ":")
-						if prev, dup := ids[p[len(p)-1]]; dup {
-							bad = append(bad, fmt.Sprintf("instance-id-shared\tinstances %s and %s created concurrently share an instance id: their keys occupy the same key space", prev, in))
-						}
-						ids[p[len(p)-1]] = in
-					}
-				}
-				if a.Base.DataUUID == b.Base.DataUUID {
-					bad = append(bad, "data-uuid-shared\ttwo instances created concurrently share a data uuid")
-				}
-				// isolation: a key written to one must not be readable from the other
-				vsrv.PostS("node/"+w.root+"/a/key/k", "in-a")
-				if y := vsrv.Get("node/" + w.root + "/b/key/k"); y.Code == 200 {
-					bad = append(bad, "instances-alias\ta key written to instance a reads back from instance b")
-				}
-			}
-			return
-		}})
-	sc = append(sc, c11Scenario{name: "S6c:ids:newrepo||newrepo", setup: func() (*c11World, error) {
-		root, err := vsrv.NewRepo()
-		return &c11World{root: root, nodes: map[string]string{}, resp: make([]vsrv.Resp, 4)}, err
-	},
-		bodies: func(w *c11World) []func() {
-			mk := func(i int) func() {
-				return func() { w.resp[i] = vsrv.PostS("repos", fmt.Sprintf(`{"alias":"r%d","description":"d"}`, i)) }
-			}
-			return []func(){mk(0), mk(1)}
-		},
-		verdict: func(w *c11World) (bad []string) {
-			var roots []string
-			for i := 0; i < 2; i++ {
-				var m struct{ Root string }
-				json.Unmarshal(w.resp[i].Body, &m)
-				if acked(w.resp[i]) {
-					roots = append(roots, m.Root)
-					if x := vsrv.Get("repo/" + m.Root + "/info"); !x.OK() {
-						bad = append(bad, fmt.Sprintf("repo-lost\tPOST repos was acknowledged with root %s but the repo cannot be read: %s", m.Root, x))
-					}
-				}
-			}
-			if len(roots) == 2 && roots[0] == roots[1] {
-				bad = append(bad, "repo-uuid-shared\ttwo repos created concurrently share a root uuid")
-			}
-			dump := datastore.VerifDump(append(roots, w.root)...)
-			vids := map[uint32]string{}
-			rids := map[uint32]string{}
-			for _, r := range dump.Repos {
-				if prev, dup := rids[uint32(r.ID)]; dup {
-					bad = append(bad, fmt.Sprintf("repo-id-shared\trepos %s and %s share repo id %d", prev, r.Root, r.ID))
-				}
-				rids[uint32(r.ID)] = r.Root
-				for _, n := range r.Nodes {
-					if prev, dup := vids[uint32(n.Version)]; dup {
-						bad = append(bad, fmt.Sprintf("version-id-shared\tnodes %s and %s share version id %d", prev, n.UUID, n.Version))
-					}
-					vids[uint32(n.Version)] = n.UUID
-				}
-			}
-			return
-		}})
-	sc = append(sc, c11Scenario{name: "S4c:labelmap:cleave||cleave:same-body", setup: func() (*c11World, error) {
-		w, err := lmWorld()
-		if err == nil {
-			lmMerge(w.root, "lm", 1, 4)
-			lmMerge(w.root, "lm", 1, 5)
-			vsrv.Quiesce()
-			w.extra = map[string]interface{}{}
-		}
-		return w, err
-	},
-		bodies: func(w *c11World) []func() {
-			cl := func(i int, sv uint64) func() {
-				return func() {
-					var l uint64
-					l, w.resp[i] = lmCleave(w.root, "lm", 1, sv)
-					w.extra[fmt.Sprint("cleaved", i)] = l
-				}
-			}
-			return []func(){cl(0, 4), cl(1, 5)}
-		},
-		verdict: lmVerdict(func(w *c11World, M map[uint64]uint64) (bad []string) {
-			l0, _ := w.extra["cleaved0"].(uint64)
-			l1, _ := w.extra["cleaved1"].(uint64)
-			for i, sv := range []uint64{4, 5} {
-				l := []uint64{l0, l1}[i]
-				if acked(w.resp[i]) && M[sv] != l {
-					bad = append(bad, fmt.Sprintf("cleave-lost\tcleave of supervoxel %d acknowledged (new body %d) but it maps to %d", sv, l, M[sv]))
-				}
-			}
-			if acked(w.resp[0]) && acked(w.resp[1]) && l0 == l1 {
-				bad = append(bad, fmt.Sprintf("same-new-label\ttwo acknowledged cleaves were given the same new body id %d", l0))
-			}
-			return
-		})})
-	return sc
-}
-
-func keysS(m map[string]bool) []string {
-	var out []string
-	for k := range m {
-		out = append(out, k)
-	}
-	sort.Strings(out)
-	return out
 }
 
 type c11Job struct {
@@ -970,6 +402,13 @@ func runC11(c *vlib.Ctx) {
 			}
 			c.Violate(names[i]+":"+v.Class, fmt.Sprintf("%s under schedule %v: %s | trace: %s", names[i], v.Schedule, v.What, trunc(strings.Join(v.Trace, " > "), 1500)), map[string]interface{}{"scenario": names[i], "schedule": v.Schedule, "trace": v.Trace})
 		}
+	}
+	if c.ReplayFile == "" && os.Getenv("VERIF_C11_ONLY") == "" {
+		rounds := 20
+		if c.Thorough() {
+			rounds = 200
+		}
+		c11FreePass(c, rounds)
 	}
 	c.Set("states", states)
 	c.Set("transitions", transitions)
